@@ -1707,6 +1707,8 @@ def translate_source(text, origin="deap/gp.py"):
         try:
             if module_refusal is not None:
                 raise module_refusal
+            if gname in os.environ.get("C11_FORCE_REFUSE", "").split(","):
+                refuse("Module", "refusal forced for testing (C11_FORCE_REFUSE)")
             if cls is not None:
                 ds = methods.get(pyname, [])
             else:
